@@ -174,6 +174,11 @@ def gen_call(rng, pidx, p, o, entries=None):
     variant["falsy_hooks"] = rng.random() < 0.3
     variant["cancel_bridge"] = rng.random() < 0.3      # "cancelled" is raised as a CancelledError subclass that is also an Exception
     variant["tl_object"] = rng.random() < 0.3
+    variant["falsy_objs"] = rng.random() < 0.25     # falsy exception / result objects (len() == 0)
+    variant["chained"] = rng.random() < 0.25       # failures carry __cause__ / __context__ (a CircuitOpenError, an AbortRetryError, ...)
+    r = rng.random()
+    variant["same_exc"] = r < 0.15                  # every failing attempt raises the same exception object
+    variant["exc_group"] = 0.15 <= r < 0.27         # failures arrive as a one-member ExceptionGroup
     env = gen_env(rng, p, c, dict(o, _is_async=is_async))
     if is_async and (env["bs_cancel"] or env["sleep_cancel"]) and rng.random() < 0.7:
         variant.update(throw=True, suspend_bs=True, suspend_sleep=True, sync_hooks=False)
@@ -224,6 +229,26 @@ def cap_mix_sequence(rng, o):
     return {"t0": 0, "budget": None, "breaker": None, "policies": [p], "calls": [call]}
 
 
+def hold_hung_sequences(rng, o, modes=("call", "execute")):
+    """sync calls under attempt_timeout_s whose first attempt hangs and STAYS hung while the later attempts run (the worker
+    thread is released only when the call is over): every attempt has its own worker, so the second attempt starts at once and
+    its result is the call's.  (One real wait of 2.5 s per script.)"""
+    out = []
+    for mode in modes:
+        p = gen_policy(rng, dict(o, p_att_timeout=1.0, p_tight_deadline=0.0, p_handler=0.0))
+        p.update(max_attempts=3, max_unknown=None, per_class={}, strat_default=False, strat_tab={}, handler_p=False)
+        call = gen_call(rng, 0, p, dict(o, p_abort=0.0, p_handler=0.0, p_async=0.0, mode=mode), entries=["retry"])
+        ok_second = rng.random() < 0.5
+        call["env"]["ops"] = [["R", p["att_timeout"], "TRANSIENT", None, "hang"],
+                              ["V", 1, None, None] if ok_second else ["R", 1, "TRANSIENT", None], ["V", 0, None, None]]
+        call["env"].update(strat=[1, 2, 1], over=[0, 0, 0], handler=[], sleep_cancel=[], bs_cancel=[], abort=[])
+        call["cfg"].update(handler_c=False, has_abort=False)
+        call["variant"]["hold_hung"] = True
+        call["variant"]["same_exc"] = call["variant"]["exc_group"] = False
+        out.append({"t0": 0, "budget": None, "breaker": None, "policies": [p], "calls": [call]})
+    return out
+
+
 def gen_sequence(rng, o):
     if rng.random() < o.get("p_cap_mix", 0.0):
         return cap_mix_sequence(rng, o)
@@ -237,7 +262,8 @@ def gen_sequence(rng, o):
     for _ in range(n_calls):
         pidx = rng.randrange(n_pol)
         calls.append(gen_call(rng, pidx, policies[pidx], o))
-    return {"t0": rng.choice([0, 5, 1000, 2**36]), "budget": budget, "breaker": None, "policies": policies, "calls": calls}
+    return {"t0": rng.choice([0, 5, 1000, 2**36]), "budget": budget, "breaker": None, "policies": policies, "calls": calls,
+            "falsy_shared": rng.random() < 0.6}
 
 
 # ------------------------------------------------------------------------------------------------
@@ -312,7 +338,8 @@ def g_tags(t, decorator=False):
     extra = "extra" in t or "state" in t
     klass = t.get("class")
     # ScriptedTimeout: the operation's own TimeoutError; TimeoutError: the runner's, for an attempt scripted to hang
-    ok_err = t.get("err") in (None, "ScriptedError", "CircuitOpenError", "ScriptedTimeout", "TimeoutError")
+    ok_err = t.get("err") in (None, "ScriptedError", "CircuitOpenError", "ScriptedTimeout", "TimeoutError", "EmptyBatchError",
+                              "EmptyBatchTimeout", "ExceptionGroup")
     ok_op = t.get("operation") in (None, "opname")
     return G.rec(
         t_class=G.opt(klass if klass in KLASSES else None),
